@@ -119,13 +119,17 @@ macro_rules! ensure {
 #[macro_export]
 macro_rules! ensure_eq {
     ($a:expr, $b:expr, $($arg:tt)*) => {
-        if $a != $b {
-            return Err($crate::runner::Fail::new(format!(
-                "{}: left={} right={}",
-                format!($($arg)*),
-                $crate::runner::show(&$a),
-                $crate::runner::show(&$b)
-            )));
+        match (&$a, &$b) {
+            (__a, __b) => {
+                if *__a != *__b {
+                    return Err($crate::runner::Fail::new(format!(
+                        "{}: left={} right={}",
+                        format!($($arg)*),
+                        $crate::runner::show(__a),
+                        $crate::runner::show(__b)
+                    )));
+                }
+            }
         }
     };
 }
